@@ -411,6 +411,38 @@ impl<'a, H: HashAlgorithm> Exec<'a, H> {
                 }
             }
         }
+        // update half: a seeded write set in scope of the chosen terminals; the per-path verifier,
+        // the multi-proof verifier and the reference trie over the updated set must agree
+        {
+            let mut r = crate::rng::Rng::new(sel ^ 0x7777);
+            let mut new_state = state.clone();
+            let mut by_terminal: BTreeMap<Vec<bool>, (proof::VerifiedPathProof, Vec<(Key, Option<[u8; 32]>)>)> = BTreeMap::new();
+            for (k, p) in &chosen {
+                let depth = p.siblings.len();
+                let path: Vec<bool> = k.view_bits::<Msb0>()[..depth].iter().by_vals().collect();
+                let single = p.verify::<H>(k.view_bits::<Msb0>(), root).map_err(|e| self.v("C05", "proof-does-not-verify", format!("{e:?}")))?;
+                let entry = by_terminal.entry(path).or_insert_with(|| (single, Vec::new()));
+                // the proven key itself, plus sometimes a fresh key under the same terminal
+                let mut cands = vec![*k];
+                if r.chance(1, 2) { let mut f = r.bytes32(); for i in 0..depth { crate::gen::set_bit(&mut f, i, crate::gen::get_bit(k, i)); } cands.push(f); }
+                for c in cands {
+                    if entry.1.iter().any(|(x, _)| *x == c) { continue; }
+                    let v = if new_state.contains_key(&c) && r.chance(1, 3) { None } else { Some(VSpec { len: *r.pick(&[3u32, 40, 1400]), stamp: 0xE000_0000 + (r.next() as u32 & 0xffffff) }) };
+                    match v { Some(v) => { new_state.insert(c, v); } None => { new_state.remove(&c); } }
+                    entry.1.push((c, v.map(|v| self.hc.vh::<H>(&c, v))));
+                }
+            }
+            let mut updates: Vec<PathUpdate> = Vec::new();
+            let mut all_ops: Vec<(Key, Option<[u8; 32]>)> = Vec::new();
+            for (_, (vp, mut ops)) in by_terminal { ops.sort_by(|a, b| a.0.cmp(&b.0)); all_ops.extend(ops.iter().cloned()); updates.push(PathUpdate { inner: vp, ops }); }
+            updates.sort_by(|a, b| a.inner.path().cmp(b.inner.path()));
+            all_ops.sort_by(|a, b| a.0.cmp(&b.0));
+            let want = ref_trie::<H>(&new_state, &mut self.hc).hash();
+            let per_path = proof::verify_update::<H>(root, &updates).map_err(|e| self.v("C07", "path-update-rejected", format!("verify_update over an in-scope write set failed: {e:?}")))?;
+            if per_path != want { return Err(self.v("C07", "path-update-root", format!("verify_update = {}, reference trie over the updated set = {}", hex(&per_path), hex(&want)))); }
+            let multi = proof::verify_multi_proof_update::<H>(&vmp, all_ops).map_err(|e| self.v("C07", "multiproof-update-rejected", format!("verify_multi_proof_update over an in-scope write set failed: {e:?}")))?;
+            if multi != want { return Err(self.v("C07", "multiproof-update-root", format!("verify_multi_proof_update = {}, reference trie over the updated set = {}", hex(&multi), hex(&want)))); }
+        }
         rep!(self).multiproofs_checked += 1;
         Ok(())
     }
